@@ -183,3 +183,57 @@ func verifHarness_C10_handleContext() {
 	verifAssert(o.ownResp && o.req == req, "the context keeps its request and its own writer")
 	verifCover("C10 HandleContext")
 }
+
+
+// Cross-check by explicit histories: K requests on one router (custom
+// fallback chains whose slices have spare capacity, with or without global
+// middleware); every request must answer like the same request on a freshly
+// built identical router.
+func verifC10Router(globals int) (*Router, *[]string) {
+	var log []string
+	tag := func(s string) HandlerFunc {
+		return func(c *Context) { log = append(log, s+":"+c.Param("id")); c.WriteString(s) }
+	}
+	pass := func(c *Context) { c.Next() }
+	r := New(HandleMethodNotAllowed)
+	for i := 0; i < globals; i++ {
+		r.Use(pass)
+	}
+	nf := make(HandlersChain, 0, 4)
+	nf = append(nf, pass, tag("nf"))
+	r.NotFound(nf...)
+	na := make(HandlersChain, 0, 4)
+	na = append(na, tag("na"))
+	r.NotAllowed(na...)
+	r.GET("/s", tag("s"), pass)
+	r.GET("/d/{id}", tag("d"), pass, pass)
+	r.POST("/p", tag("p"))
+	return r, &log
+}
+
+func verifHarness_C10_history() {
+	globals := verifChoice("globals", 2)
+	reqs := []verifC03Req{{"GET", "/s"}, {"GET", "/d/7"}, {"GET", "/nowhere"}, {"POST", "/s"}, {"POST", "/p"}}
+	r, log := verifC10Router(globals)
+	K := verifParam("K")
+	for k := 0; k < K; k++ {
+		q := reqs[verifChoice("req", len(reqs))]
+		*log = nil
+		rec := verifNewWriter()
+		r.ServeHTTP(rec, verifRequest(q.method, q.path))
+		got := *log
+		fresh, flog := verifC10Router(globals)
+		frec := verifNewWriter()
+		fresh.ServeHTTP(frec, verifRequest(q.method, q.path))
+		same := len(got) == len(*flog) && rec.whStatus == frec.whStatus && string(rec.body) == string(frec.body)
+		if same {
+			for i := range got {
+				if got[i] != (*flog)[i] {
+					same = false
+				}
+			}
+		}
+		verifAssert(same, "the k-th request of a history answers exactly like the first request on a fresh identical router")
+	}
+	verifCover("C10 history")
+}
